@@ -34,6 +34,7 @@ const (
 )
 
 var auxParamsOnce sync.Once
+var auxCaseNo int
 
 // auxParams lowers the fork so that the simulator's histories cross it, installs the harness
 // signers and scales the initial SHA/Scrypt share difficulties to the simulator's hash rate.
@@ -583,7 +584,8 @@ func TestC08_AuxPow(t *testing.T) {
 		}
 		ui := postPairs[rapid.IntRange(0, len(postPairs)-1).Draw(t, "uncleAt")]
 		sharePows := []types.PowID{types.SHA_BTC, types.SHA_BCH, types.Kawpow}
-		if rapid.IntRange(0, 2).Draw(t, "withScrypt") == 0 || stats.Thorough() {
+		auxCaseNo++
+		if auxCaseNo%2 == 1 || stats.Thorough() { // Scrypt hashing is slow: every other case in the quick tier
 			sharePows = append(sharePows, types.Scrypt)
 		}
 		for _, p := range sharePows {
